@@ -33,6 +33,10 @@ class LexRule:
         return f'<rule {self.index} L{self.line} {self.pattern!r} -> {self.action_src}>'
 
 
+class _NotADisplay(Exception):
+    pass
+
+
 class Tables:
     def __init__(self, ctx):
         self.ctx = ctx
@@ -133,7 +137,7 @@ class Tables:
                         raise AnalysisError(f'{mod.relpath}:{e.lineno}: keyword dictionary list entry is not a dict')
                     out.append((ast.unparse(e), v))
                 return out
-            raise AnalysisError(f'{self.lexmod.relpath}:{lineno}: keyword dictionary list `{ast.unparse(n)[:60]}` is not a display of dictionaries')
+            raise _NotADisplay(f'{self.lexmod.relpath}:{lineno}: keyword dictionary list `{ast.unparse(n)[:60]}` is not a display of dictionaries')
 
         def fresh(v):
             return isinstance(v, (ast.List, ast.ListComp)) or (isinstance(v, ast.Call) and isinstance(v.func, ast.Name) and v.func.id == 'list') \
@@ -144,6 +148,34 @@ class Tables:
         def is_self_call(st, names):
             return isinstance(st, ast.Expr) and isinstance(st.value, ast.Call) and isinstance(st.value.func, ast.Attribute) \
                 and isinstance(st.value.func.value, ast.Name) and st.value.func.value.id == 'self' and st.value.func.attr in names
+        try:
+            self._kw_walk(di, add, elements, fresh, is_self_call)
+        except _NotADisplay as e:
+            # the list is built somewhere else (a helper, a cached tuple): take what interpreting default_initialization() leaves in
+            # self._keywords; the entries get the names of the module-level dictionaries they are equal to
+            from .rules_lexer import default_lexer
+            o, why = default_lexer(self.ctx)
+            kws = getattr(o, '_keywords', None) if o is not None else None
+            if not isinstance(kws, list) or not all(isinstance(d, dict) for d in kws):
+                raise AnalysisError(f'{e} (and default_initialization is not evaluable: {why or "no list of dictionaries in self._keywords"})')
+            named = {}
+            for name, node in self.kwmod.assigns.items():
+                if isinstance(node, ast.Dict):
+                    try:
+                        named[name] = f.eval(node, self.kwmod)
+                    except NotConst:
+                        pass
+            self.kw = [(next((f'keywords.{k}' for k, v in named.items() if v == d), f'<dictionary #{i}>'), d) for i, d in enumerate(kws)]
+        # all module-level dicts of keywords.py
+        self.all_dicts = {}
+        for name, node in self.kwmod.assigns.items():
+            if isinstance(node, ast.Dict):
+                try:
+                    self.all_dicts[name] = f.eval(node, self.kwmod)
+                except NotConst as e:
+                    raise AnalysisError(f'keywords.{name} not statically evaluable ({e})')
+
+    def _kw_walk(self, di, add, elements, fresh, is_self_call):
         for st in di.node.body:
             if isinstance(st, ast.Expr) and isinstance(st.value, ast.Call) and isinstance(st.value.func, ast.Attribute) \
                     and isinstance(st.value.func.value, ast.Name) and st.value.func.value.id == 'self':
@@ -171,14 +203,6 @@ class Tables:
                     add(st.value.args[0], st.lineno)
                 else:
                     self.kw.extend(elements(st.value.args[0], st.lineno))
-        # all module-level dicts of keywords.py
-        self.all_dicts = {}
-        for name, node in self.kwmod.assigns.items():
-            if isinstance(node, ast.Dict):
-                try:
-                    self.all_dicts[name] = f.eval(node, self.kwmod)
-                except NotConst as e:
-                    raise AnalysisError(f'keywords.{name} not statically evaluable ({e})')
 
     def lookup(self, word):
         """the type is_keyword gives (first dictionary in registration order), else Name"""
